@@ -6,6 +6,8 @@ import (
 	"encoding/json"
 	"fmt"
 	"os"
+	"os/signal"
+	"runtime"
 	"runtime/debug"
 	"syscall"
 )
@@ -97,6 +99,11 @@ func init() {
 	}
 }
 
+const (
+	dumpBegin = "--c03-goroutine-dump--"
+	dumpEnd   = "--c03-goroutine-dump-end--"
+)
+
 const workerAddressSpace = 4 << 30 // bytes of virtual memory a worker may map (`ulimit -v` 4 GiB)
 
 func workerMain() {
@@ -117,6 +124,19 @@ func workerMain() {
 		}
 	}
 	prog := progressMap()
+	// When the parent's watchdog fires it first asks for a goroutine dump
+	// (SIGUSR1) so that a wedge can be named by the function it is stuck in.
+	// runtime.Stack(all) stops the world, so it also shows the goroutine that
+	// is busy on another thread -- which a SIGQUIT dump does not.
+	sigc := make(chan os.Signal, 1)
+	signal.Notify(sigc, syscall.SIGUSR1)
+	go func() {
+		for range sigc {
+			buf := make([]byte, 4<<20)
+			n := runtime.Stack(buf, true)
+			_, _ = os.Stderr.Write(append(append([]byte("\n"+dumpBegin+"\n"), buf[:n]...), []byte("\n"+dumpEnd+"\n")...))
+		}
+	}()
 
 	in := bufio.NewReaderSize(os.Stdin, 1<<20)
 	out := bufio.NewWriterSize(os.Stdout, 1<<20)
